@@ -304,6 +304,16 @@ def run_unit(unit, tier, scratch, keep=False):
         return res
     cur = a
     # 2. constant-bound loops unwound before contract instrumentation
+    if unit.get("goto_instrument_args"):
+        g = os.path.join(wd, "g.gb")
+        cmd = ["goto-instrument"] + unit["goto_instrument_args"] + [cur, g]
+        res.cmds.append(" ".join(cmd))
+        r = run(cmd, wd, 120)
+        if r["timeout"] or r["rc"] != 0 or not os.path.exists(g):
+            res.infra = "goto-instrument %s failed: %s" % (unit["goto_instrument_args"], r["out"][-1500:])
+            res.wall = time.time() - t0
+            return res
+        cur = g
     unwindset = list(unit.get("unwindset", []))
     if unit.get("unwind_loops"):
         # resolve loop ids by the text of the loop's source line (robust against renumbering)
@@ -322,8 +332,11 @@ def run_unit(unit, tier, scratch, keep=False):
                 if loc.get("function") != fn:
                     continue
                 txt = source_line(loc.get("file"), loc.get("line"), loc.get("workingDirectory") or wd)
-                if re.search(pat, txt):
+                if pat == "*" or (pat.startswith("#") and lp["name"].endswith("." + pat[1:])) or (not pat.startswith("#") and re.search(pat, txt)):
                     hits.append(lp["name"])
+            if pat == "*" and hits:
+                unwindset += ["%s:%d" % (hh, n) for hh in hits]
+                continue
             if len(hits) != 1:
                 res.infra = "cannot resolve loop %s /%s/: %d matches" % (fn, pat, len(hits))
                 res.wall = time.time() - t0
@@ -376,8 +389,9 @@ def run_unit(unit, tier, scratch, keep=False):
         if tier == "thorough" and unit.get("unwind_thorough"):
             uw = unit["unwind_thorough"]
         flags += ["--unwind", str(uw), "--unwinding-assertions"]
-    if unit.get("loop_contracts") or unit.get("object_bits"):
-        flags += ["--object-bits", str(unit.get("object_bits", 12))]
+    flags += ["--object-bits", str(unit.get("object_bits", 12))]
+    if not (enforce or replace or unit.get("loop_contracts")):
+        flags += ["--drop-unused-functions"]
     solver = unit.get("solver", "cadical")
     if solver == "kissat":
         flags += ["--external-sat-solver", "kissat"]
@@ -429,6 +443,11 @@ def run_unit(unit, tier, scratch, keep=False):
             ob["inputs"] = extract_inputs(rr.get("trace"), entry)
             ob["trace"] = short_trace(rr.get("trace"))
             res.failed.append(ob)
+    # a failed unwinding assertion means the bound is too small: undecided, never a violation
+    uw = [o for o in res.failed if o["class"] == "unwind"]
+    if uw:
+        res.infra = "unwinding assertion failed (bound too small): %s" % [o["id"] for o in uw][:5]
+        res.failed = [o for o in res.failed if o["class"] != "unwind"]
     # vacuity guard 1: expected obligation classes present
     counts = {}
     for ob in res.obligations:
